@@ -43,6 +43,15 @@ let perr (e : Num.err) = out (match e with
   | Num.Fuel -> "Fuel" | Num.KeyError -> "KeyError" | Num.NameError -> "NameError")
 let pres f = function Num.Ok a -> out "Ok"; f a | Num.Err e -> out "Err"; perr e
 
+(* objects: pardim, then per basis (order per1 knots), dim, rat, cps *)
+let rbasis () = let p = rnat () in let per1 = rnat () in let k = rqlist () in Exec.q_mkBasis p k per1
+let robj () =
+  let bs = rlist rbasis in let dim = rnat () in let rat = rbool () in
+  let cps = rlist rqlist in Exec.q_mkObj bs cps dim rat
+let pbasis (b : coq_Q Obj.basis) = pnat b.Obj.b_order; pnat b.Obj.b_per1; pqlist b.Obj.b_knots
+let pobj (o : coq_Q Obj.obj) =
+  plist pbasis o.Obj.o_bases; pnat o.Obj.o_dim; pbool o.Obj.o_rat; plist pqlist o.Obj.o_cps
+
 let dispatch name =
   match name with
   | "basis_evaluate" ->
@@ -64,6 +73,13 @@ let dispatch name =
     let side = rbool () in let k = rqlist () in let p = rnat () in let per1 = rnat () in
     let d = rnat () in let t = rq () in
     pqlist (Exec.q_ref_row side k p per1 d t)
+  | "obj_eval" ->
+    let tol = rq () in let o = robj () in let pts = rlist rqlist in
+    plist (fun ts -> pres pqlist (Exec.q_obj_eval tol o ts)) pts
+  | "obj_deriv" ->
+    let tol = rq () in let o = robj () in let ds = rnatlist () in let ab = rlist rbool in
+    let pts = rlist rqlist in
+    plist (fun ts -> pres pqlist (Exec.q_obj_deriv tol o ds ab ts)) pts
   | _ -> out ("UNKNOWN " ^ name)
 
 let () =
